@@ -5,6 +5,7 @@ CONSTANTS
  Honest = {0,1,3}
  FixF3 = FALSE
  FixF4 = FALSE
+ FixF15 = FALSE
 INVARIANTS Agreement NoDuplicate Integrity
 PROPERTIES DeliveryStepT
 POSTCONDITION Accepted
